@@ -357,7 +357,7 @@ def gen_inputs(tier, rnd):
     n = 6 if tier == "quick" else 50
     k = 0
     for _ in range(n):
-        rows = c09.gen_valid(rnd)
+        rows = c09.gen_valid(rnd, fmt=["delimited", "fixed", "excel", "ods"][k % 4])
         k += 1
         yield {"kind": "cid", "rows": rows, "seed": k, "what": "valid"}
         for name, rw in c09.rewrites(rnd, rows):
